@@ -142,8 +142,8 @@ def make_reject_twice(name, lines):
                 if other is not lines:
                     assemble(other)
         info = {"program": lines, "outcomes": kinds}
-        if kinds[0] == kinds[1] == kinds[2]:
-            return True, info
+        if kinds[0] == kinds[1] == kinds[2] == "diag":
+            return True, info          # (these programs are rejected on a fresh interpreter: anything else depends on history)
         return ctx.known(PID, {"part": "reject"}, {"kinds": kinds}), info
     return Ob("C17:reject:%s" % name, body, timeout=120, tags={"part": "reject"}, text="asm(%s) three times with the other rejected programs in between" % lines, r4=False)
 
